@@ -134,6 +134,7 @@ type machine struct {
 	concrete  *concreteFeed // non-nil in concrete (differential / replay-in-engine) mode
 
 	permuteMaps  int
+	permuteOff   bool // harness bracket: vrt.PermuteMaps(false) .. vrt.PermuteMaps(true)
 	prov         map[*Term]provenance
 	nonnegCache  map[*Term]bool
 	spec         bool
